@@ -217,7 +217,10 @@ fn run_net(c: &Case) -> Result<Result<Outcome, String>, BedErr> {
                 }
                 Item::Burst { to, n } => {
                     let i = *to as usize % N_LIVE;
-                    let n = 1001 + (*n as usize % 600);
+                    // odd: exactly as many messages as the mailbox holds, followed by two notices that find it full;
+                    // even: more messages than it holds
+                    let with_notices = *n % 2 == 1;
+                    let n = if with_notices { 1000 } else { 1001 + (*n as usize % 600) };
                     let target = pid_value(&live[i].0);
                     let mut all = send_frame(&target, &Value::atom("hold"));
                     expected[i].push(Event::Regular(Value::atom("hold")));
@@ -225,6 +228,16 @@ fn run_net(c: &Case) -> Result<Result<Outcome, String>, BedErr> {
                         let v = Value::Tuple(vec![Value::atom("burst"), Value::int(k as i128)]);
                         all.extend_from_slice(&send_frame(&target, &v));
                         expected[i].push(Event::Regular(v));
+                    }
+                    // ... and, while the mailbox is still full, an exit signal and a monitor notice for the same process:
+                    // they have to wait for room like everything else
+                    if with_notices {
+                        let f = remote_pid(9);
+                        let r = Value::Ref { node: PEER.into(), creation: 3, ids: vec![99, 2, 3] };
+                        all.extend_from_slice(&pass_through_frame(&Value::Tuple(vec![Value::int(3), f.clone(), target.clone(), Value::atom("burst_exit")]), None));
+                        expected[i].push(Event::Exit { from: f.clone(), reason: Value::atom("burst_exit") });
+                        all.extend_from_slice(&pass_through_frame(&Value::Tuple(vec![Value::int(21), f.clone(), target.clone(), r.clone(), Value::atom("burst_down")]), None));
+                        expected[i].push(Event::MonitorExit { monitored: f, reference: r, reason: Value::atom("burst_down") });
                     }
                     if !p.write(&all).await {
                         problems.push(("peer-write-failed".into(), format!("item {idx}: burst")));
